@@ -208,7 +208,7 @@ def check(pid, tier):
     t0 = time.time()
     payloads = [(pid, "union", m) for m in union_lattice(tier)]
     payloads += [(pid, "type", t) for t in LITERALS + NESTED]
-    res = runner.run_pool(c11_task, payloads, chunks=2)
+    res = runner.run_pool(c11_task, payloads, chunks=2) + runner.run_pool(literal_return_task, [(pid,)], chunks=1)
     obs, crashes = [], []
     for r in res:
         if "crash" in r:
@@ -225,3 +225,60 @@ def check(pid, tier):
         functions=["UnionUnpackerBuilder._add_body", "LiteralUnpackerBuilder._add_body", "pack_union", "pack_literal", "expr_or_maybe_none (through the texts they produce)"],
         crashes=crashes,
     )
+
+
+# ---------------------------------------------------------------------------------------------
+# Literal helpers return the LITERAL: `==` between the input and a literal value also holds across types (True == 1 == 1.0), and the
+# engine's equality is term equality, so the class of the result is pinned by a rule on the generated helper: a branch guarded by
+# `value == <constant>` returns that constant (not the input that merely compares equal to it).
+# ---------------------------------------------------------------------------------------------
+LITRET_SRC = '''
+class _LE(enum.Enum):
+    A = "a"
+@dataclass
+class C(DataClassDictMixin):
+    x: Literal[1, 2]
+    y: Literal[True, False]
+    z: Literal["s", 3, None] = None
+    e: Literal[_LE.A, b"b"] = _LE.A
+    o: Optional[Literal[0, ""]] = None
+'''
+
+
+def literal_return_task(payload):
+    (pid,) = payload
+    from . import build, g4
+
+    src = g4.PRELUDE + LITRET_SRC
+    mod, recs = build.build_module(src)
+    try:
+        probs, n = [], 0
+        for r in recs:
+            for fn in [f for f in ast.parse(r.text).body if isinstance(f, ast.FunctionDef) and f.name.startswith("__unpack_literal")]:
+                for node in ast.walk(fn):
+                    if not (isinstance(node, ast.If) and isinstance(node.test, ast.Compare) and len(node.test.ops) == 1 and isinstance(node.test.ops[0], ast.Eq)
+                            and isinstance(node.test.left, ast.Name) and node.test.left.id == "value" and isinstance(node.test.comparators[0], ast.Constant)):
+                        continue
+                    const = node.test.comparators[0]
+                    for st in node.body:
+                        if isinstance(st, ast.Return):
+                            n += 1
+                            ok = isinstance(st.value, ast.Constant) and st.value.value == const.value and type(st.value.value) is type(const.value)
+                            if not ok:
+                                probs.append(f"{fn.name.split('__')[1]}: under `value == {ast.unparse(const)}` the helper returns `{ast.unparse(st.value)}`, not the literal")
+        first = []
+        for data, field, want in (({"x": True, "y": False}, "x", 1), ({"x": 1, "y": 0}, "y", False), ({"x": 2.0, "y": True}, "x", 2), ({"x": 1, "y": True, "o": False}, "o", 0)):
+            try:
+                got = getattr(mod.C.from_dict(data), field)
+                if got != want or type(got) is not type(want):
+                    first.append(f"C.from_dict({data!r}).{field} is {got!r} ({type(got).__name__}), the annotation names {want!r} ({type(want).__name__})")
+            except Exception as e:  # noqa
+                first.append(f"C.from_dict({data!r}) raised {type(e).__name__}: {str(e)[:100]}")
+        w = {"confirmed": True, "source": src, "input": "C.from_dict({'x': True, 'y': False})", "why": first[0]} if first else None
+        return {"obligations": [
+            dict(id=f"{pid}.G5[literal-return]/returns_the_literal", status=("proved" if not probs else "refuted") if n else "error", unit=f"{n} `value == constant` branches of the Literal helpers",
+                 detail="; ".join(sorted(set(probs)))[:500] if n else "no branch found", witness=w if probs else None),
+            dict(id=f"{pid}.H5[literal-return]/cross_type_equal_inputs", status="proved" if not first else "refuted", bounded=True, unit="inputs that compare equal to a literal of another type (bounded)",
+                 detail="; ".join(first)[:500], witness=w)]}
+    finally:
+        build.drop_module(mod)
